@@ -11,12 +11,12 @@ from vlib.batch import Batch, BudgetExceeded, cpu_budget, unjson
 PROPERTY = 'C09'
 LEVEL = 'exploration'
 RULE = ('fixed corpus (one-shot, persistent, interval 0, equal intervals, datetime deadline, reset before/after expiry, unregister before/after '
-        'expiry, timer created late, timers next to sleep() tasks and ordinary events) + seeded random scenarios of 1-6 timers with intervals '
+        'expiry, timer created late, timers next to sleep() tasks and ordinary events; six of them also with a Select, Poll or EPoll component in the tree, whose select/poll/epoll wait then is the idle sleep and runs on the virtual clock in the unit the system call defines) + seeded random scenarios of 1-6 timers with intervals '
         'from {0, 0.1, 0.1, 0.25, 1, 2.5} or datetimes, persistent or not, created/reset/unregistered at random virtual times; non-trivial = '
         '>= 2 timers alive at the same time with different expiries, or a reset/unregister of a live timer; distinct = hash of the scenario')
 ASSUMPTIONS = [
     'time.time and threading.Event doubles are picked up by the repository (asserted per worker, else inconclusive)',
-    'virtual time advances inside the idle wait of the loop thread, in `busy` handlers, and - in running-clock scenarios - by a fixed cost with every '
+    'virtual time advances inside the idle wait of the loop thread (threading.Event.wait of the fall-back generator, or the poller\'s select.select / poll.poll [ms] / epoll.poll [s] when a poller is in the tree: asked with a zero timeout first, so real wake-ups are kept), in `busy` handlers, and - in running-clock scenarios - by a fixed cost with every '
     'reading of the clock; in those scenarios NO_OVERSLEEP and PERSISTENT_SPACING allow 64 readings of slack (the loop cannot act at the instant it reads)',
     'harness actions are executed from a generate_events handler of priority 100, i.e. at the start of a loop iteration',
     'EPS = 1e-6 s tolerance on float arithmetic of expiries',
